@@ -7,6 +7,8 @@ import types
 import inspect
 from inspect import isgeneratorfunction
 from collections import deque, namedtuple
+from itertools import count
+from weakref import WeakKeyDictionary
 import asyncio
 
 from .. import hioing
@@ -162,6 +164,8 @@ class Doist(tyming.Tymist):
         self.done = None
         self.doers = list(doers) if doers is not None else []  # list of Doers
         self.deeds = deque()  # deque of deeds
+        self._ranks = WeakKeyDictionary()  # enter ordinal of each entered dog
+        self._count = count()  # source of enter ordinals
         self.timer = timing.MonoTimer(duration = self.tock)
         self.temp = True if temp else False
 
@@ -390,6 +394,7 @@ class Doist(tyming.Tymist):
                     # write to doer.__func__.done read from doer.done
                     doer.__func__.done = ex.value if ex.value is not None else doer.done
                 continue  # don't append
+            self._ranks[dog] = next(self._count)  # enter order of its deed
             deeds.append((dog, self.tyme, doer))  # first recur immediately
         return deeds
 
@@ -477,9 +482,9 @@ class Doist(tyming.Tymist):
         if deeds is None:
             deeds = self.deeds
             # when interrupted or extended mid recur .deeds is rotated about
-            # the run through once marker so restore enter order from .doers
-            rank = lambda deed: (self.doers.index(deed[2]) if deed[2] in self.doers
-                                 else len(self.doers))
+            # the run through once marker so restore enter order. Not from .doers
+            # since a doer that removed itself is still running but not in .doers
+            rank = lambda deed: self._ranks.get(deed[0], float('inf'))
             ordered = sorted((deed for deed in deeds if deed[0]), key=rank)
             deeds.clear()
             deeds.extend(ordered)
@@ -542,8 +547,8 @@ class Doist(tyming.Tymist):
             else:  # keep deed do not remove and close
                 deeds.append((dog, retyme, doer))  # reappend
 
-        # mid recur .deeds is rotated about marker so restore enter order from .doers
-        rdeeds = deque(sorted(rdeeds, key=lambda deed: self.doers.index(deed[2])))
+        # mid recur .deeds is rotated about marker so restore enter order
+        rdeeds = deque(sorted(rdeeds, key=lambda deed: self._ranks.get(deed[0], float('inf'))))
 
         for doer in rdoers:  # update .doers to remove rdoers
             self.doers.remove(doer)
@@ -1110,6 +1115,8 @@ class DoDoer(Doer):
         super(DoDoer, self).__init__(**kwa)
         self.doers = list(doers) if doers is not None else []
         self.deeds = deque()
+        self._ranks = WeakKeyDictionary()  # enter ordinal of each entered dog
+        self._count = count()  # source of enter ordinals
         self.always = always
 
 
@@ -1303,6 +1310,7 @@ class DoDoer(Doer):
 
 
                 continue  # don't append already complete
+            self._ranks[dog] = next(self._count)  # enter order of its deed
             deeds.append((dog, self.tyme, doer))
         return deeds
 
@@ -1370,9 +1378,9 @@ class DoDoer(Doer):
         if deeds is None:
             deeds = self.deeds
             # when interrupted or extended mid recur .deeds is rotated about
-            # the run through once marker so restore enter order from .doers
-            rank = lambda deed: (self.doers.index(deed[2]) if deed[2] in self.doers
-                                 else len(self.doers))
+            # the run through once marker so restore enter order. Not from .doers
+            # since a doer that removed itself is still running but not in .doers
+            rank = lambda deed: self._ranks.get(deed[0], float('inf'))
             ordered = sorted((deed for deed in deeds if deed[0]), key=rank)
             deeds.clear()
             deeds.extend(ordered)
@@ -1435,8 +1443,8 @@ class DoDoer(Doer):
             else:  # keep deed do not remove and close
                 deeds.append((dog, retyme, doer))  # reappend
 
-        # mid recur .deeds is rotated about marker so restore enter order from .doers
-        rdeeds = deque(sorted(rdeeds, key=lambda deed: self.doers.index(deed[2])))
+        # mid recur .deeds is rotated about marker so restore enter order
+        rdeeds = deque(sorted(rdeeds, key=lambda deed: self._ranks.get(deed[0], float('inf'))))
 
         for doer in rdoers:  # update .doers to remove rdoers
             self.doers.remove(doer)
